@@ -114,15 +114,11 @@ def opname(op):
 
 
 def viol_key(calls, idx):
-    """failing op + the nearest earlier op that failed or was cancelled (desync usually needs two steps)"""
+    """failing op + the op before it (a desynchronisation shows one step later)"""
     cur = opname(calls[idx]["op"])
-    lost = any(c["op"]["k"] in ("destroy", "killinit") for c in calls[:idx])
-    prev = ""
-    for c in reversed(calls[:idx]):
-        if c["op"]["k"] == "exec":
-            prev = opname(c["op"])
-            break
-    return "%s%s after %s" % ("lost:" if lost else "", cur, prev or "-")
+    lost = any(c["op"]["k"] in ("destroy", "killinit") or c["op"].get("loss") for c in calls[:idx])
+    prev = opname(calls[idx - 1]["op"]) if idx > 0 else "-"
+    return "%s%s after %s" % ("lost:" if lost else "", cur, prev)
 
 
 def hist_key(h):
